@@ -312,6 +312,37 @@ theorem bin_length_trapz (s : Spectrum) (sym : Bool) (fl fr : ℚ) (pp : Option 
     have := binRaw_length_trapz s sym fl fr c raw hraw
     split at h <;> cases h <;> simp [this]
 
+/-- Simpson binning also returns one value per requested centre (both end treatments, float or integer-dtype centres) -/
+theorem binRaw_length_simps (s : Spectrum) (sym intC : Bool) (fl fr : ℚ) (c bins : List ℚ)
+    (h : binRaw s true sym fl fr c intC = .ok bins) : bins.length = c.length := by
+  simp only [binRaw, if_true] at h
+  split at h
+  · cases h
+  · rename_i hc
+    have hc2 : 2 ≤ c.length := by omega
+    split at h
+    · cases h
+    · rename_i f hf
+      have hl := sample_length _ _ _ _ _ hf
+      have hx := simpsPoints_length sym intC c hc2
+      cases h
+      exact simpsBins_length c.length _ _ hl.symm hx
+
+/-- one bin per centre for both rules, with or without power preservation -/
+theorem bin_length (s : Spectrum) (simps sym intC : Bool) (fl fr : ℚ) (pp : Option (Option ℚ)) (c bins : List ℚ)
+    (h : bin s simps sym fl fr pp c intC = .ok bins) : bins.length = c.length := by
+  simp only [bin] at h
+  split at h
+  · cases h
+  · rename_i raw hraw
+    have hr : raw.length = c.length := by
+      cases simps
+      · have hraw' : binRaw s false sym fl fr c = .ok raw := by
+          simpa [binRaw] using hraw
+        exact binRaw_length_trapz s sym fl fr c raw hraw'
+      · exact binRaw_length_simps s sym intC fl fr c raw hraw
+    split at h <;> cases h <;> simp [hr]
+
 /-- Tᵖ: trapezoid bins of non-negative samples over increasing edges are non-negative. Gap (checked by the oracle
 only): that the linear interpolant of a non-negative spectrum with non-negative fill is non-negative at every edge and
 that the edges of increasing centres are increasing. -/
